@@ -15,7 +15,7 @@ func init() {
 		ID:    "C03",
 		Title: "Best match: literals beat variables, independent of registration order",
 		Decided: "C03.a each comparator used to rank candidates is, over all 3^m order relations between its m keys, exactly a lexicographic comparison with one fixed direction per key and 'false' when all keys are equal (hence a strict weak order), its primary key for route candidates is the literal measure ordered so that more literal comes first (taking sort.Reverse at the call site into account), and the route comparators end in a strict comparison of Route.Path (a total tie-break, which makes the sorted order independent of registration order for distinct templates); " +
-			"C03.d a mux registration is suppressed only by whole-pattern equality (reachability independent of Add order); C03.e the counters returned by a token matcher classify each segment once; C03.b the candidates are sorted after the last candidate was added and before they are handed on, and the stage function returns element 0 of its final, order-preserving list; C03.c in the root-path scorer every literal token adds strictly more than any variable token and all increments are positive, the best root is replaced only on a strictly greater score, and the scan over the services runs to exhaustion. After a candidate was added, no element of the collection is read outside the adding loop on a path that skipped sort.Sort, unless fewer than two candidates exist.",
+			"C03.d a mux registration is suppressed only by whole-pattern equality (reachability independent of Add order); C03.e the counters returned by a token matcher classify each segment once; C03.b the candidates are sorted after the last candidate was added and before they are handed on, and the stage function returns element 0 of its final, order-preserving list; C03.c in the root-path scorer every literal token adds strictly more than any variable token and all increments are positive, the best root is replaced only on a strictly greater score, and the scan over the services runs to exhaustion. After a candidate was added, no element of the collection is read outside the adding loop on a path that skipped sort.Sort, unless fewer than two candidates exist. Between the sort and the selection the functions the selectors reach only filter: no append joins two lists of candidates unless the first is empty.",
 		NotDecided: "that the counts (static, literal, parameter) are computed correctly per template; the full 'never less specific' relation over arbitrary overlapping templates; stability issues of sort.Sort beyond totality of the order.",
 		Rules: []Rule{
 			{ID: "C03.a", Template: "T-CMP", Required: true, Run: ruleC03a,
@@ -434,7 +434,11 @@ func newComparator(p *Program, fn *ssa.Function) *comparator {
 		if !ok {
 			continue
 		}
-		if ix, ok := unparen(as.Rhs[0]).(*ast.IndexExpr); ok {
+		rhs := unparen(as.Rhs[0])
+		if ue, ok := rhs.(*ast.UnaryExpr); ok && ue.Op == token.AND {
+			rhs = unparen(ue.X) // a := &s[i]: the element, read in place
+		}
+		if ix, ok := rhs.(*ast.IndexExpr); ok {
 			if idx, ok := unparen(ix.Index).(*ast.Ident); ok {
 				if idx.Name == names[0] {
 					cm.locals[id.Name] = "i"
@@ -770,6 +774,37 @@ func ruleC03b(c *Ctx) {
 	}
 	if nRoute == 0 {
 		c.bad("-", "route candidates are sorted", "-", "no sort of route candidates is reachable from the selectors")
+	}
+	// between the sort and the selection the candidates are only filtered: joining two lists of candidates puts every
+	// element of the second behind every element of the first, whatever their rank
+	nAppend := 0
+	for _, fn := range p.SrcFunc {
+		if !selReach[fn] {
+			continue
+		}
+		eachInstr(fn, func(i ssa.Instruction) {
+			call, ok := i.(*ssa.Call)
+			if !ok || !isBuiltinCall(call, "append") || len(call.Call.Args) != 2 || !isCandidateSliceType(call.Type()) {
+				return
+			}
+			nAppend++
+			if !isCandidateSliceType(call.Call.Args[1].Type()) {
+				return
+			}
+			// append(a, b...): b is a list of candidates; a has to be empty (a copy)
+			if sl, isSl := strip(call.Call.Args[1]).(*ssa.Slice); isSl {
+				if _, isArr := sl.X.(*ssa.Alloc); isArr {
+					return // append(a, x, y): the variadic array of single elements
+				}
+			}
+			if emptySliceValue(call.Call.Args[0]) {
+				return
+			}
+			c.bad(p.fname(fn), "candidates are filtered, never joined", p.ipos(i), "two lists of route candidates are joined with append(a, b...): every element of the second list comes after every element of the first whatever their rank, so a less specific route can overtake a more specific one")
+		})
+	}
+	if nAppend > 0 {
+		c.ok("-", "candidates are filtered, never joined", "-", itoa(nAppend)+" appends to candidate lists in the functions the selectors reach; the ones that spread a second list start from an empty one")
 	}
 	// the stage function returns element 0 of its final list
 	if sf := stageFunction(p); sf != nil {
@@ -1437,6 +1472,31 @@ func semanticArgmaxGuard(p *Program, info *types.Info, guard ast.Expr, keyName, 
 		}
 		if match {
 			return true
+		}
+	}
+	return false
+}
+
+// emptySliceValue: v is a slice known to be empty: nil, make(T, 0, ...), x[:0], or an empty literal.
+func emptySliceValue(v ssa.Value) bool {
+	v = strip(v)
+	if isNilConst(v) {
+		return true
+	}
+	switch x := v.(type) {
+	case *ssa.MakeSlice:
+		n, ok := constInt(x.Len)
+		return ok && n == 0
+	case *ssa.Slice:
+		if x.High != nil {
+			if n, ok := constInt(x.High); ok && n == 0 {
+				return true
+			}
+		}
+		if a, ok := x.X.(*ssa.Alloc); ok {
+			if arr, ok := a.Type().(*types.Pointer).Elem().Underlying().(*types.Array); ok && arr.Len() == 0 {
+				return true
+			}
 		}
 	}
 	return false
